@@ -115,6 +115,19 @@ func c05Run(ep string, d *c05JV, target any) c05Outcome {
 		m, _ := c05Native(d, c05Mix(seed, 0), true).(map[string]any)
 		return c05Call(func() error { return mapping.UnmarshalKey(m, target) })
 	}
+	return c05RunPlain(ep, d, target)
+}
+
+// c05RunNative: entry point "native" of a case (c.NM: shape-directed value types).
+func c05RunNative(c *c05Case, target any, x *c05NatCtx) c05Outcome {
+	if c.NM == 0 {
+		return c05Run("native:"+strconv.Itoa(c.FP), &c.D, target)
+	}
+	m := c05NativeDoc(c.S, &c.D, c05Mix(uint64(c.FP), 1), x)
+	return c05Call(func() error { return mapping.UnmarshalKey(m, target) })
+}
+
+func c05RunPlain(ep string, d *c05JV, target any) c05Outcome {
 	switch ep {
 	case "key":
 		m, _ := d.toAny().(map[string]any)
@@ -231,17 +244,22 @@ func c05InterpJSON(c c05Case) (v kit.Verdict) {
 		return c05InterpCustom(&c, target)
 	}
 	ep := c.EP
-	if ep == "native" {
-		ep = "native:" + strconv.Itoa(c.FP)
-	}
-	out := c05Run(ep, &c.D, target.Interface())
 	o := c05NewOracle()
+	o.numText = true
+	run := func(t any) c05Outcome { return c05Run(ep, &c.D, t) }
 	if c.EP == "native" {
+		o.native = true
 		o.unspec("native-values") // acceptance is never demanded for hand-built maps
+		o.class(fmt.Sprintf("native:mode%d", c.NM))
+		run = func(t any) c05Outcome { return c05RunNative(&c, t, &c05NatCtx{classes: o.classes}) }
 	}
+	out := run(target.Interface())
 	res := reflect.Value{}
 	if out.Panic == nil && out.Err == nil {
 		res = target.Elem()
+	}
+	if c.EP == "native" && os.Getenv("C05_DEBUG_NATIVE") != "" {
+		fmt.Fprintf(os.Stderr, "NATIVE nm=%d err=%v\n", c.NM, out.Err)
 	}
 	o.walkStruct(c.S, &c.D, res, "")
 	o.class("ep:" + c.EP)
@@ -250,7 +268,7 @@ func c05InterpJSON(c c05Case) (v kit.Verdict) {
 	}
 	v.Fail, v.Known = c05Judge(o, out, "Unmarshal("+c.EP+")", func() string { return c05Describe(&c) })
 	if v.Fail == "" && res.IsValid() {
-		v.Fail = c05Repeat(o, &c, res, "Unmarshal("+c.EP+")", func(t any) c05Outcome { return c05Run(ep, &c.D, t) })
+		v.Fail = c05Repeat(o, &c, res, "Unmarshal("+c.EP+")", run)
 	}
 	return c05Finish(v, o, c05Depth(c.S))
 }
@@ -551,6 +569,12 @@ func c05InterpFault(c *c05Case, target reflect.Value) (v kit.Verdict) {
 
 func TestVerif_C05_json(t *testing.T) {
 	kit.Run(t, "C05", "json", kit.Opts{Quick: 40000, Thorough: 1600000}, c05GenCase, c05InterpJSON)
+}
+
+// rule "native": the same interpreter and oracle on hand-built map documents only (the value
+// TYPES of the document are a dimension of their own; rule json spends 14 % of its cases there).
+func TestVerif_C05_native(t *testing.T) {
+	kit.Run(t, "C05", "native", kit.Opts{Quick: 20000, Thorough: 640000}, c05GenNativeCase, c05InterpJSON)
 }
 
 // ---- P3: YAML agreement ----
